@@ -665,8 +665,45 @@ class Oracles:
                         self.violate("C10", "leaked-space-reservation", self.nlabel(nid), f"{nid} holds no item but has {len(ptoks)} outstanding space reservation(s) at {now}")
                 if nr.blocking and self.stat(nid, "num_item_discarded"):
                     self.violate("C09", "blocking-node-discarded", self.nlabel(nid), f"blocking source {nid} has num_item_discarded={self.stat(nid, 'num_item_discarded')}")
+            if nr.type in ("splitter", "combiner"):
+                self.check_unit_node(nid, nr, node, now)
             if nr.type in PROC and nr.blocking and self.stat(nid, "num_item_discarded"):
                 self.violate("C09", "blocking-node-discarded", self.nlabel(nid), f"blocking {nid} has num_item_discarded={self.stat(nid, 'num_item_discarded')}")
+
+    def check_unit_node(self, nid, nr, node, now):
+        """Splitter / combiner: one unit of work (a pallet).  Non-blocking: everything the finished unit yields is pushed or
+        dropped in the finish instant.  Blocking FIRST_AVAILABLE: a finished unit is never held while an out-edge has room."""
+        life = None
+        for l in nr.held.values():
+            life = l if life is None or l["pull_seq"] < life["pull_seq"] else life      # the oldest unit still held
+        if life is None:
+            return
+        d = life["d"]
+        if d is None:
+            spec = nr.spec.get("pdelay", 0)
+            d = spec["vals"][0] if isinstance(spec, dict) and spec["form"] == "const" else (None if isinstance(spec, dict) else spec)
+        if d is None:
+            return
+        if nr.type == "splitter":
+            fin = life["pull_t"] + d
+        else:
+            if "complete_t" not in life:
+                return
+            prev = max([l["leave_t"] for l in nr.life if l["leave_t"] is not None and l["pull_seq"] < life["pull_seq"]] + [0])
+            fin = max(life["complete_t"], prev) + d
+        if fin > now:
+            return
+        self.blocked_seen = True
+        out_edges = [e.id for e in node.out_edges]
+        if not nr.blocking:
+            self.violate("C09", "non-blocking-node-waits", self.nlabel(nid),
+                         f"non-blocking {nid} still holds its unit of work {life['item']} (finished at {fin}) at end of instant {now}")
+        elif self.pol(nid, "out") == "FIRST_AVAILABLE" and all(self.erec[e].type in ("buffer", "fleet") for e in out_edges):
+            for e in out_edges:
+                if self.edge_room(e) > 0:
+                    self.violate("C10", "room-but-not-pushed", self.nlabel(nid) + "," + self.elabel(e),
+                                 f"{nid} holds finished {life['item']} (finished at {fin}) at end of instant {now} although out-edge {e} has room")
+                    break
 
     # ---- end of run ------------------------------------------------------------------------------------
     def on_build_error(self, e):
